@@ -61,3 +61,11 @@ Example C03_nonvacuous :
   let s := Build_cstate [(1, 10); (2, 20); (3, 30); (4, 40)]%Z [1; 2; 3; 4]%Z [] [] [] 0%Z 0%Z in
   rows (revert 0%Z 0%Z (apply_trial 0%Z 0%Z [Delete [2%nat; 0%nat] 2%Z] s)) = rows s.
 Proof. reflexivity. Qed.
+
+(* why revert_state removes the appended atoms before it puts the deleted ones back: on a relocation trial the code's order restores
+   the rows, the opposite order does not (a concrete instance, evaluated by the kernel) *)
+Theorem C03_undo_order_matters :
+  Sync undo_s0 /\ revert_rows 0%nat 0%nat (apply_trial 0%nat 0%nat undo_relocation undo_s0) = rows undo_s0 /\
+  revert_rows_swapped 0%nat 0%nat (apply_trial 0%nat 0%nat undo_relocation undo_s0) <> rows undo_s0.
+Proof. exact undo_order_matters. Qed.
+Print Assumptions C03_undo_order_matters.
